@@ -287,7 +287,7 @@ def removeCells (seq : Nat) (b e off : Int) : List Cell → List Cell × Bool
         let r := removeCells seq b e off cs
         (dropSeq seq c :: r.1, r.2)
       else if c.pos ≥ e then
-        if c.seqs.any (· ≠ seq) then (c :: cs, true)
+        if sharedOther seq c.seqs then (c :: cs, true)
         else
           let r := removeCells seq b e off cs
           ({ c with pos := c.pos + off } :: r.1, r.2)
